@@ -4,9 +4,9 @@ demo digest on the clean tree, git apply, baseline tests, demo digest on the cha
 usage: tools_verify_neutral.py <outdir> <ID> ...  -> <outdir>/<ID>/verify.json"""
 import json, os, subprocess, sys, xml.etree.ElementTree as ET
 BASE = set(json.load(open('/root/.vp/BASELINE.json'))['stable_pass'])
-def sh(cmd, cwd=None, timeout=1200, env=None):
+def sh(cmd, cwd=None, timeout=1200, env=None, stdout_only=False):
     r = subprocess.run(cmd, shell=True, cwd=cwd, capture_output=True, text=True, timeout=timeout, env=env)
-    return r.returncode, (r.stdout + r.stderr)
+    return r.returncode, (r.stdout if stdout_only else r.stdout + r.stderr)
 def main(outdir, ids):
     os.makedirs('/tmp/vn', exist_ok=True)
     for pid in ids:
@@ -25,9 +25,9 @@ def main(outdir, ids):
             sh('git checkout -- . && git clean -fdq', cwd=wt)
             # the agents' demos assert that they import the package from their own worktree: point them at this one
             loc = '/tmp/vn/%s_demo%d.py' % (pid, k)
-            open(loc, 'w').write(open(demo).read().replace('/tmp/wtn/' + pid, wt))
+            open(loc, 'w').write(open(demo).read().replace('/tmp/wtn2/' + pid, wt).replace('/tmp/wtn/' + pid, wt))
             demo = loc
-            rc, o1 = sh('/venv/bin/python %s' % demo, cwd=wt, env=env, timeout=900)
+            rc, o1 = sh('/venv/bin/python %s' % demo, cwd=wt, env=env, timeout=1800, stdout_only=True)   # the digest is what the demo prints
             r['demo_clean_rc'] = rc
             rc, o = sh('git apply %s' % patch, cwd=wt)
             r['applies'] = rc == 0
@@ -42,7 +42,7 @@ def main(outdir, ids):
             except Exception as e:
                 r['junit_err'] = str(e)
             r['baseline_missing'] = sorted(BASE - ok)
-            rc, o2 = sh('/venv/bin/python %s' % demo, cwd=wt, env=env, timeout=900)
+            rc, o2 = sh('/venv/bin/python %s' % demo, cwd=wt, env=env, timeout=1800, stdout_only=True)
             r['demo_changed_rc'] = rc
             r['same_output'] = (o1 == o2)
             if o1 != o2:
